@@ -51,6 +51,7 @@ def run(pid, tier, seed, technique):
     else:
         for m in MODES[1:]:
             jobs.append((T, dict(L=2, jac=m)))
+            jobs.append((T, dict(L=1, jac=m, rel="none")))
         if tier != "quick":
             for m in MODES[1:]:
                 jobs.append((T, dict(L=3, jac=m, n=2)))
